@@ -493,6 +493,31 @@ def file_case(case):
             kw['end'] = end
         if case.get('filemode'):
             kw['filemode'] = case['filemode']       # other spellings of append mode
+        already = ''
+        if case.get('prior'):
+            # an earlier run in this process wrote to the same path; between the runs its output is archived (renamed) and
+            # a fresh empty file put in its place / deleted / left where it is (this run then appends to it)
+            old = new_model(seed=2)
+
+            class Prior(FileCollector):
+                def collect(self):
+                    self.records.append(f'p{self.model.systems.timestep};')
+            pc = Prior('fc', old, path, write_count=case.get('prior_wc', 0), **({'filemode': case['filemode']} if
+                                                                                case.get('filemode') else {}))
+            old.systems.add_system(pc)
+            old.execute(4)
+            ptext = open(path).read() if os.path.exists(path) else ''
+            if ptext + ''.join(pc.records) != 'p0;p1;p2;p3;':
+                raise Violation('earlier run: file text + held records', expected='p0;p1;p2;p3;', observed=ptext)
+            if case['prior'] == 'archived':
+                if os.path.exists(path):
+                    os.replace(path, path + '.old')
+                open(path, 'w').close()
+            elif case['prior'] == 'deleted':
+                if os.path.exists(path):
+                    os.remove(path)
+            else:
+                already = ptext
         col = Col('fc', model, path, write_count=wc, **kw)
         if (col.filemode != 'a' and not case.get('filemode')) or col.priority != -1:
             raise Violation('FileCollector defaults changed', expected=['a', -1], observed=[col.filemode, col.priority])
@@ -510,6 +535,10 @@ def file_case(case):
                     held = []
             model.execute()
             text = open(path).read() if os.path.exists(path) else ''
+            if not text.startswith(already):
+                raise Violation(f'after timestep {t}: the text an earlier run had left in the file is gone',
+                                expected=already, observed=text[:60])
+            text = text[len(already):]
             got_held = list(col.records)
             if text + ''.join(got_held) != ''.join(collected):
                 raise Violation(f'after timestep {t}: file text + held records differs from everything collected so '
@@ -605,6 +634,16 @@ def run(ctx):
     for per in (8, 16, 64, 63, 65):
         for wc in (0, 1, 3, 7):
             cases.append({'leg': 'file', 'counts': [per] * (2 * (wc + 1) + 1), 'write_count': wc, 'win': 0})
+    for per in (512, 1024, 2048, 4095, 4096, 4097):
+        for wc in (0, 1, 3, 7):
+            cases.append({'leg': 'file', 'counts': [per] * (2 * (wc + 1) + 1), 'write_count': wc, 'win': 0})
+    # an earlier run in the same process wrote to the same path; its output is archived / deleted / appended to
+    for prior in ('archived', 'deleted', 'kept'):
+        for wc in (0, 1, 2):
+            for pwc in (0, 1, 5):
+                for fm in (None, 'at'):
+                    cases.append({'leg': 'file', 'counts': [1, 2, 0, 1, 2], 'write_count': wc, 'win': 0, 'prior': prior,
+                                  'prior_wc': pwc, **({'filemode': fm} if fm else {})})
     size = max(1, len(cases) // (ctx.procs * 4))
     if ctx.small:
         cases = cases[::9]
